@@ -1,31 +1,8 @@
 From Coq Require Import NArith ZArith Lia Bool List ZifyN ZifyNat ZifyBool.
-From V Require Import Gen.GenSuper.
+From V Require Import Gen.GenSuper Model.SuperModel.
 Import ListNotations.
 Open Scope N_scope.
 Ltac Zify.zify_post_hook ::= Z.div_mod_to_equations.
-Definition NBITBLOCK := 32768.
-Definition LOGSIZE := 513.
-Definition INODEBLK := 32.
-Definition INODESZ := 128.
-Definition NINODEBITMAP := 1.
-(* markAlloc's sanity test (guard) *)
-Definition markAlloc_sane fs : bool :=
-  negb ((NBITBLOCK <=? DataStart fs) || (w64 (NBITBLOCK * NBlockBitmap fs) <=? MaxBnum fs) || (MaxBnum fs <? DataStart fs)).
-
-Definition accepted (sz:N) : Prop := sz < W /\ markAlloc_sane (MkFsSuper sz) = true.
-
-(* ---- hand model of markAlloc at bit level: which bits are set in the block bitmap ---- *)
-(* bit b of the whole block-bitmap region (b < NBlockBitmap*NBITBLOCK) *)
-Definition mk_bit (fs:FsSuper) (b:N) : bool :=
-  let n := DataStart fs in let m := MaxBnum fs in
-  let last := m / NBITBLOCK in                    (* index of bitmap block written second *)
-  let blk := b / NBITBLOCK in let off := b mod NBITBLOCK in
-  if last =? 0 then
-    (* both loops hit the same block 0 *)
-    (blk =? 0) && ((off <? n) || (m mod NBITBLOCK <=? off))
-  else
-    ((blk =? 0) && (off <? n)) || ((blk =? last) && (m mod NBITBLOCK <=? off)).
-
 
 (* ---- staged simplification: remove every wrap under the acceptance hypothesis ---- *)
 Lemma w64_small x : x < W -> w64 x = x.
